@@ -364,7 +364,10 @@ class ExactlyOnce:
         q = []
         if s["running"] or any(p.live_dw.values()):
             q.append("task-running")
-        if s["queue"]:
+        from .run import QueueLog
+        if s["queue"] or QueueLog().update(p):
+            # (also by the call log: handed to the allocation loop and not
+            # yet dropped from the hot buffer)
             q.append("observation-queued")
         if s["idle"]:
             q.append("reservation-held")
